@@ -42,18 +42,21 @@ def opt_subsets(options):
                 toks = []
                 kw = {}
                 for (flag, pname, _), (tok, val) in zip(sub, vals):
-                    toks.append(flag)
-                    if tok is not None:
-                        toks.append(tok)
+                    if tok is not None and tok.startswith("="):
+                        toks.append(flag + tok)  # the --option=value spelling
+                    else:
+                        toks.append(flag)
+                        if tok is not None:
+                            toks.append(tok)
                     kw[pname] = val
                 yield toks, kw
 
 
 FUNCS = [(VW + "work", vw.work), (VW + "notcoro", vw.notcoro)]
-ECB = ("--end-callback", "end_callback", [(VW + "ecb", vw.ecb)])
+ECB = ("--end-callback", "end_callback", [(VW + "ecb", vw.ecb), ("=" + VW + "ecb", vw.ecb)])
 CCB = ("--cancel-callback", "cancel_callback", [(VW + "accb", vw.accb)])
-GROUP = ("--group-name", "group_name", [("g1", "g1"), ("g2", "g2"), ("7", "7")])
-MSG = ("--msg", "msg", [("m1", "m1"), ("3.0", "3.0"), ("None", "None")])
+GROUP = ("--group-name", "group_name", [("g1", "g1"), ("g2", "g2"), ("7", "7"), ("=g_x", "g_x")])
+MSG = ("--msg", "msg", [("m1", "m1"), ("3.0", "3.0"), ("None", "None"), ("=m_1-x", "m_1-x"), ("m_2", "m_2")])
 RE = ("--return-exceptions", "return_exceptions", [(None, True)])
 
 
@@ -135,7 +138,7 @@ def forms_for(cls_name, full=True):
         add("stop_all")
     else:
         args = ("--args", "args", [("()", ()), ("(1,)", (1,)), ("(1,'a')", (1, "a"))])
-        kwargs = ("--kwargs", "kwargs", [("{}", {}), ("{'k':1}", {"k": 1})])
+        kwargs = ("--kwargs", "kwargs", [("{}", {}), ("{'k':1}", {"k": 1}), ("={'k_2':'a_b'}", {"k_2": "a_b"})])
         num = ("--num", "num", [("0", 0), ("2", 2)])
         nc = ("--num-concurrent", "num_concurrent", [("2", 2), ("0", 0)])
         fn = [(t, v) for t, v in FUNCS]
